@@ -169,14 +169,16 @@ class Gen:
             op = OPS[H.hole(L + ".op", len(OPS) - 1)]
             x = self.ref(L + ".x", ("pool", last), [("pool", 0)])
             y = self.ref(L + ".y", ("pool", 0), [("pool", last), ("const", 3)]) if op not in OPS1 else None
-            return ("op", op, x, y)
+            swap = bool(op in ("add", "lt", "eq") and H.hole(L + ".swap", 1))  # `y op x`: with a constant y the reflected operator runs
+            return ("op", op, x, y, swap)
         name = "inner" if "inner" not in self.used_dags else "innerb"
         self.used_dags.add(name)
         if name not in M.dags:
             build_inner(self.c, M, H, name, cfg.depth if name == "inner" else 1)
         nreq, ndef = M.dags[name][3]
         nsup = nreq + H.hole(L + ".nsup", ndef)
-        args = [self.ref("%s.a%d" % (L, i), ("pool", last) if i == 0 else ("pool", 0), [("pool", 0), ("const", 3), ("pool", last)])
+        # (True == 1 and 1 is a default value: an explicit argument that merely compares equal to the default is still explicit)
+        args = [self.ref("%s.a%d" % (L, i), ("pool", last) if i == 0 else ("pool", 0), [("pool", 0), ("const", 3), ("pool", last), ("const", True), ("const", None)])
                 for i in range(nsup)]
         flag = self.flag(L, last, base_flag)
         # documented as unsupported: a twz_active on a nested DAG that already contains a flagged node
@@ -198,8 +200,9 @@ class Gen:
             else:
                 pool.append(r)
         elif st[0] == "op":
-            _, op, x, y = st
-            pool.append(M.op(op, self.deref(x, pool), None if y is None else self.deref(y, pool)))
+            _, op, x, y, swap = st
+            a, b = self.deref(x, pool), (None if y is None else self.deref(y, pool))
+            pool.append(M.op(op, b, a) if swap else M.op(op, a, b))
         else:
             _, name, args, active = st
             flag = NOFLAG if active is None else self.deref(active, pool)
@@ -254,6 +257,7 @@ def build_inner(c: Ctx, M: Mode, H: Holes, name: str, depth: int) -> None:
         build_inner(c, M, H, name + "_in", depth - 1)
     # the node inside the nested DAG: argument form and an activation flag of its own
     argform = ("pos", "kw", "idx", "kwidx")[H.hole(name + ".argform", 3)]
+    dflt = (1, None, "s")[H.hole(name + ".default", 2)]  # default value of the defaulted parameters
     ownflag = (None, "p", "pidx", False)[H.hole(name + ".ownflag", 3)]
 
     def body(*params: Any) -> Any:
@@ -281,10 +285,10 @@ def build_inner(c: Ctx, M: Mode, H: Holes, name: str, depth: int) -> None:
 
     # functions with real signatures (tawazi inspects them)
     if sig == (1, 1):
-        def fn(p, q=5):  # type: ignore[no-untyped-def]
+        def fn(p, q=dflt):  # type: ignore[no-untyped-def]
             return body(p, q)
     elif sig == (1, 2):
-        def fn(p, q=5, w=6):  # type: ignore[no-untyped-def]
+        def fn(p, q=dflt, w=6):  # type: ignore[no-untyped-def]
             return body(p, q, w)
     elif sig == (1, 0):
         def fn(p):  # type: ignore[no-untyped-def]
